@@ -288,6 +288,9 @@ func Worker(t *testing.T) {
 				os.Exit(2)
 			}
 			fmt.Printf("HASH %d %s %v\n", i, r.TraceHash, sigs(r))
+			if d := os.Getenv("VERIF_DUMP"); d == strconv.Itoa(i) || d == "all" {
+				fmt.Println(strings.Join(r.Trace, "\n"))
+			}
 		}
 		return
 	}
